@@ -14,6 +14,8 @@ pub mod c01;
 pub mod c03;
 pub mod c04;
 pub mod c09;
+pub mod c14;
+pub mod c16;
 pub mod c28;
 pub mod textcorpus;
 
